@@ -19,7 +19,7 @@ static const config CFG[] = {
 	{ "block/lzma2-bt2", E_BLOCK, C_LZMA2_BT2 }, { "mt2/lzma2-hc3", E_MT, C_LZMA2_HC3 },
 };
 #define NCFG ((int)(sizeof CFG / sizeof CFG[0]))
-static lzma_options_lzma opt, opt_upd; static lzma_options_delta odelta = { .type = LZMA_DELTA_TYPE_BYTE, .dist = 2 }; static lzma_filter chain[4], chain_upd[4], chain_other[4], chain_bad[4];
+static lzma_options_lzma opt, opt_upd, opt_mf; static lzma_options_delta odelta = { .type = LZMA_DELTA_TYPE_BYTE, .dist = 2 }; static lzma_filter chain[4], chain_upd[4], chain_other[4], chain_bad[4], chain_mf[4];
 #define NICE 8
 static void mk_chain(int c) {
 	lzma_lzma_preset(&opt, 0); opt.dict_size = 4096; opt.nice_len = NICE; opt.depth = 0;
@@ -29,6 +29,7 @@ static void mk_chain(int c) {
 	chain[n++] = (lzma_filter){ c == C_LZMA1 ? LZMA_FILTER_LZMA1 : LZMA_FILTER_LZMA2, &opt }; chain[n].id = LZMA_VLI_UNKNOWN;
 	// update variants: same chain with other lc/lp/pb; a different chain; an invalid chain
 	opt_upd = opt; opt_upd.lc = 0; opt_upd.lp = 2; opt_upd.pb = 0; memcpy(chain_upd, chain, sizeof chain); chain_upd[n - 1].options = &opt_upd;
+	opt_mf = opt; opt_mf.mf = (opt.mf == LZMA_MF_HC3 || opt.mf == LZMA_MF_HC4) ? LZMA_MF_BT4 : LZMA_MF_HC3; opt_mf.mode = (opt_mf.mf == LZMA_MF_BT4) ? LZMA_MODE_NORMAL : LZMA_MODE_FAST; memcpy(chain_mf, chain, sizeof chain); chain_mf[n - 1].options = &opt_mf;	// same chain, other match finder (hash chain <-> binary tree)
 	int m = 0; if (c != C_DELTA_LZMA2) chain_other[m++] = (lzma_filter){ LZMA_FILTER_DELTA, &odelta }; chain_other[m++] = (lzma_filter){ LZMA_FILTER_LZMA2, &opt_upd }; chain_other[m].id = LZMA_VLI_UNKNOWN;
 	chain_bad[0] = (lzma_filter){ LZMA_FILTER_LZMA2, &opt }; chain_bad[1] = (lzma_filter){ LZMA_FILTER_DELTA, &odelta }; chain_bad[2].id = LZMA_VLI_UNKNOWN;
 }
@@ -36,13 +37,13 @@ static void mk_chain(int c) {
 // ops: action<<8 | k-index ; updates: 0x400|variant
 enum { OP_RUN, OP_SYNC, OP_FULL, OP_BARRIER, OP_UPD, OP_RUN1 };
 static const lzma_action ACT[] = { LZMA_RUN, LZMA_SYNC_FLUSH, LZMA_FULL_FLUSH, LZMA_FULL_BARRIER };
-static const int KS[] = { 0, 1, 3, NICE - 1, NICE + 1 };
+static const int KS[] = { 0, 1, 3, NICE - 1, NICE + 1, 3000 };
 static const char *OPN[] = { "RUN", "SYNC_FLUSH", "FULL_FLUSH", "FULL_BARRIER", "UPDATE", "RUN1CALL" };
 static unsigned char in[1 << 16], comp[1 << 17], dec[1 << 16], refout[1 << 16]; static size_t in_len;
 static int outchunk; static const config *CF; static char hist[400]; static const char *in_name;
 static long n_hist, n_flush_checks, n_updates_ok, n_updates_refused, n_sync_refused; static h_set states;
 
-static void hist_str(const int *h, int n) { char *p = hist; *p = 0; for (int i = 0; i < n; i++) { int a = h[i] >> 8, k = h[i] & 255; if (a == OP_UPD) p += sprintf(p, "%sUPDATE(%s)", i ? " " : "", k == 0 ? "lclppb" : k == 1 ? "other-chain" : "invalid"); else p += sprintf(p, "%s%s(%d)", i ? " " : "", OPN[a], KS[k]); } }
+static void hist_str(const int *h, int n) { char *p = hist; *p = 0; for (int i = 0; i < n; i++) { int a = h[i] >> 8, k = h[i] & 255; if (a == OP_UPD) p += sprintf(p, "%sUPDATE(%s)", i ? " " : "", k == 0 ? "lclppb" : k == 1 ? "other-chain" : k == 3 ? "other-mf" : "invalid"); else p += sprintf(p, "%s%s(%d)", i ? " " : "", OPN[a], KS[k]); } }
 #define VIOL(cls, ...) do { char k_[120]; snprintf(k_, sizeof k_, "flush:%s:%s", cls, CF->name); char t_[260]; snprintf(t_, sizeof t_, __VA_ARGS__); \
 	h_fail(k_, "%s config=%s out=%d input=%s history=[%s] replay={\"harness\":\"c12_flush\",\"config\":\"%s\",\"outchunk\":%d,\"input\":\"%s\",\"history\":\"%s\"}", t_, CF->name, outchunk, in_name, hist, CF->name, outchunk, in_name, hist); bad = 1; } while (0)
 
@@ -60,7 +61,14 @@ static int prefix_ok(size_t clen, size_t given, const lzma_filter *cur_chain) {
 	d.next_in = comp; d.avail_in = clen; d.next_out = dec; d.avail_out = sizeof dec; int n = 0;
 	while ((r = lzma_code(&d, LZMA_RUN)) == LZMA_OK && n++ < 4) {}
 	int ok = (r == LZMA_OK || r == LZMA_BUF_ERROR) && d.total_out == given && !memcmp(dec, in, given);
-	lzma_end(&d); n_flush_checks++; return ok;
+	lzma_end(&d); n_flush_checks++;
+	// the same prefix drained through 1..3-byte output windows (a reader with a small buffer must reach the flush point too)
+	for (size_t w = 1; w <= 3 && ok && given <= 4096; w++) { lzma_stream e = LZMA_STREAM_INIT; if ((CF->enc == E_RAW ? lzma_raw_decoder(&e, chain) : lzma_stream_decoder(&e, UINT64_MAX, 0)) != LZMA_OK) return 0;
+		e.next_in = comp; e.avail_in = clen; e.next_out = dec; size_t cap = 0; int idle = 0;
+		for (long g = 0; g < 40000; g++) { if (e.avail_out == 0 && cap < sizeof dec) { e.avail_out = w; cap += w; } size_t bo = e.avail_out, bi = e.avail_in; r = lzma_code(&e, LZMA_RUN); if (r != LZMA_OK && r != LZMA_BUF_ERROR) break; if (bo == e.avail_out && bi == e.avail_in) { if (++idle >= 2) break; } else idle = 0; }
+		if (!((r == LZMA_OK || r == LZMA_BUF_ERROR) && e.total_out == given && !memcmp(dec, in, given))) ok = 0;
+		lzma_end(&e); }
+	return ok;
 }
 static int ref_prefix_ok(size_t clen, size_t given) {	// independent parser (only for plain LZMA2 chains inside .xz)
 	if ((CF->enc != E_STREAM && CF->enc != E_MT) || (CF->chain != C_LZMA2_HC3 && CF->chain != C_LZMA2_BT4)) return 1;
@@ -88,14 +96,14 @@ static void run_history(const int *h, int hl) {
 		int a = i == hl ? -1 : h[i] >> 8, ki = i == hl ? 0 : h[i] & 255;
 		if (a == OP_UPD) {
 			if (CF->enc == E_BLOCK) continue;	// lzma_filters_update is not offered for a lone Block encoder
-			const lzma_filter *nf = ki == 0 ? chain_upd : ki == 1 ? chain_other : chain_bad;
+			const lzma_filter *nf = ki == 0 ? chain_upd : ki == 1 ? chain_other : ki == 3 ? chain_mf : chain_bad;
 			lzma_ret u = lzma_filters_update(&s, nf);
 			int must_accept = 0;
 			if (ki == 0 && just_synced && sync_capable && cur == chain) must_accept = 1;	// LZMA2 lc/lp/pb right after a completed sync flush
-			if (ki <= 1 && at_block_boundary && (CF->enc == E_STREAM || CF->enc == E_MT) && !(ki == 0 && CF->chain == C_LZMA1)) must_accept = 1;	// any valid chain between Blocks
+			if ((ki <= 1 || ki == 3) && at_block_boundary && (CF->enc == E_STREAM || CF->enc == E_MT) && !(ki == 0 && CF->chain == C_LZMA1)) must_accept = 1;	// any valid chain between Blocks
 			if (ki == 2 && u == LZMA_OK) VIOL("update-invalid-accepted", "an invalid chain (LZMA2 not last) was accepted by lzma_filters_update");
-			if (must_accept && u != LZMA_OK) VIOL("update-refused", "lzma_filters_update(%s) refused (%d) although allowed at this point", ki == 0 ? "lc/lp/pb" : "other chain", u);
-			if (u == LZMA_OK) { n_updates_ok++; if (ki == 0) { lcpb_changed = 1; cur = chain_upd; if (at_block_boundary) chain_changed_at_block = -1; } if (ki == 1) { cur = chain_other; chain_changed_at_block = blocks_so_far; if (blocks_so_far == 0) upd_at_zero = 1; } } else n_updates_refused++;
+			if (must_accept && u != LZMA_OK) VIOL("update-refused", "lzma_filters_update(%s) refused (%d) although allowed at this point", ki == 0 ? "lc/lp/pb" : ki == 3 ? "other match finder" : "other chain", u);
+			if (u == LZMA_OK) { n_updates_ok++; if (ki == 0) { lcpb_changed = 1; cur = chain_upd; if (at_block_boundary) chain_changed_at_block = -1; } if (ki == 1) { cur = chain_other; chain_changed_at_block = blocks_so_far; if (blocks_so_far == 0) upd_at_zero = 1; } if (ki == 3 && cur == chain) cur = chain_mf; } else n_updates_refused++;
 			continue; }
 		if (a == OP_RUN1) {	// one single lzma_code(LZMA_RUN) call with a 5-byte output window: may stop anywhere (e.g. inside a Block Header), input stays pending
 			size_t k1 = (size_t)KS[ki]; if (given + k1 > in_len) k1 = in_len - given;
@@ -173,7 +181,7 @@ int main(int argc, char **argv) {
 	if (!strcmp(argv[1], "one")) { /* replay: config outchunk input history */
 		for (int c = 0; c < NCFG; c++) if (!strcmp(CFG[c].name, argv[2])) CF = &CFG[c]; if (!CF) return 2; outchunk = atoi(argv[3]); set_input(!strcmp(argv[4], "abbabaab-periodic") ? 0 : !strcmp(argv[4], "sigma2-mixed") ? 1 : 2);
 		int h[32], n = 0; char *p = argc > 5 ? argv[5] : ""; while (*p && n < 32) { char nm[32]; char arg[32]; int used = 0; if (sscanf(p, " %31[^(](%31[^)])%n", nm, arg, &used) < 2) break; p += used;
-			int a = -1; for (int i = 0; i < 6; i++) if (!strcmp(nm, OPN[i])) a = i; if (a < 0) break; int k = 0; if (a == OP_UPD) k = !strcmp(arg, "lclppb") ? 0 : !strcmp(arg, "other-chain") ? 1 : 2; else for (int i = 0; i < 5; i++) if (KS[i] == atoi(arg)) k = i; h[n++] = a << 8 | k; }
+			int a = -1; for (int i = 0; i < 6; i++) if (!strcmp(nm, OPN[i])) a = i; if (a < 0) break; int k = 0; if (a == OP_UPD) k = !strcmp(arg, "lclppb") ? 0 : !strcmp(arg, "other-chain") ? 1 : !strcmp(arg, "other-mf") ? 3 : 2; else for (int i = 0; i < 6; i++) if (KS[i] == atoi(arg)) k = i; h[n++] = a << 8 | k; }
 		run_history(h, n); printf("fails=%ld\n", h_fails); return h_fails != 0; }
 	int thorough = !strcmp(argv[2], "thorough"); sh = atoi(argv[3]); nsh = atoi(argv[4]);
 	for (int c = 0; c < NCFG; c++) for (int oc = 0; oc < 2; oc++) for (int inp = 0; inp < 2; inp++) {
@@ -185,6 +193,10 @@ int main(int argc, char **argv) {
 		if (CF->enc != E_MT) { alphabet(0); leaf = 0; rec(h, 0, thorough ? (core ? 5 : 4) : (core ? 4 : 3)); }
 		if (h_expired()) break;
 	}
+	// match-finder switch between Blocks followed by more than half a dictionary of data (the new match finder needs bigger tables than the one it replaces)
+	{ static const int cfgs[] = { 0, 1, 2 }; for (int ci = 0; ci < 3; ci++) { CF = &CFG[cfgs[ci]]; outchunk = 0; set_input(1); int h[16];
+		nops = 0; ops[nops++] = OP_RUN << 8 | 5; ops[nops++] = OP_RUN << 8 | 3; ops[nops++] = OP_FULL << 8 | 0; ops[nops++] = OP_FULL << 8 | 4; ops[nops++] = OP_SYNC << 8 | 1; ops[nops++] = OP_UPD << 8 | 3; ops[nops++] = OP_UPD << 8 | 0; ops[nops++] = OP_BARRIER << 8 | 5;
+		leaf = 0; rec(h, 0, thorough ? 5 : 4); } }
 #ifdef TUKAANI_PROJECT_XZ_VERIF
 	// flush x normalise x window slide: hooks move both events to ~1.5-3 KiB; three flushes are placed around them
 	if (thorough || 1) { static const int cfgs[] = { 0, 1, 4, 5, 8 };
